@@ -21,8 +21,8 @@ RULE = ('Generated panels (1-6 geos quick / 1-7 thorough), all eligibility matri
         'returned >= 1 design and the feasible set has >= 2 members; distinct by input description.')
 ASSUMPTIONS = ['inputs on which either search raises are counted, not judged (C09)']
 EXHAUSTIVE = {'quick': False, 'thorough': False}
-MINIMA = {'quick': {'low_noise_cases': 10, 'searches_after_caller_edits': 50, 'same_k_comparisons': 10, 'flat_treatment_cases': 10, 'must_include_overflow_cases': 10, 'shared_data_searches': 40, 'near_bound_cases': 25, 'dyadic_compared': 30, 'compared': 200, 'greedy_designs': 150, 'distinct_nontrivial': 80, 'referee_runs': 40},
-          'thorough': {'low_noise_cases': 100, 'searches_after_caller_edits': 500, 'same_k_comparisons': 100, 'flat_treatment_cases': 100, 'must_include_overflow_cases': 100, 'shared_data_searches': 400, 'near_bound_cases': 250, 'dyadic_compared': 300, 'compared': 2500, 'greedy_designs': 2000, 'distinct_nontrivial': 1000, 'referee_runs': 500}}
+MINIMA = {'quick': {'mixed_sign_cases': 8, 'low_noise_cases': 10, 'searches_after_caller_edits': 50, 'same_k_comparisons': 10, 'flat_treatment_cases': 10, 'must_include_overflow_cases': 10, 'shared_data_searches': 40, 'near_bound_cases': 25, 'dyadic_compared': 30, 'compared': 200, 'greedy_designs': 150, 'distinct_nontrivial': 80, 'referee_runs': 40},
+          'thorough': {'mixed_sign_cases': 80, 'low_noise_cases': 100, 'searches_after_caller_edits': 500, 'same_k_comparisons': 100, 'flat_treatment_cases': 100, 'must_include_overflow_cases': 100, 'shared_data_searches': 400, 'near_bound_cases': 250, 'dyadic_compared': 300, 'compared': 2500, 'greedy_designs': 2000, 'distinct_nontrivial': 1000, 'referee_runs': 500}}
 N = {'quick': 400, 'thorough': 3600}
 CASE_TIMEOUT = {'quick': 300, 'thorough': 1200}
 
@@ -90,6 +90,25 @@ def run_case(spec):
       if r.random() < 0.7:
         case['params'].pop(k2, None)
     counters['must_include_overflow_cases'] += 1
+  if (not dyadic) and spec['idx'] % 12 == 1 and G >= 3:
+    # responses may be negative (net flows): one or two geos have a negative mean, the total stays well away from 0;
+    # groups with negative volume on both sides have a positive, possibly in-range, volume ratio
+    import numpy as np  # pylint: disable=g-import-not-at-top
+    from mmv import gen as _gen  # pylint: disable=g-import-not-at-top
+    pn = case['panel']
+    m_ = np.where(pn['present'], pn['values'], 0.0).mean(axis=1)
+    flip = r.sample(range(G), r.choice([1, 2, 2]) if G >= 4 else 1)
+    new_total = float(m_.sum() - 2.0 * sum(m_[i] for i in flip))
+    if abs(new_total) > 0.25 * float(np.abs(m_).sum()):
+      for i in flip:
+        pn['values'][i] = pn['values'][i] - 2.0 * float(pn['values'][i].mean())
+      pn['present'][:] = True
+      pn['dups'] = None
+      pn['features'] = list(pn['features']) + ['mixed_sign']
+      case['frame'] = _gen.panel_frame(pn, r, shuffle=True)
+      case['params']['volume_ratio_tolerance'] = r.choice([0.5, 1.0, 3.0])
+      case['params'].pop('n_geos_max', None)
+      counters['mixed_sign_cases'] += 1
   low_noise = (not dyadic) and spec['idx'] % 12 == 9 and G >= 3
   if low_noise:
     # every geo follows one common factor with very little noise of its own (different amounts per geo): most
